@@ -97,6 +97,7 @@ def run(ctx):
         "traces_validated_against_impl": summary.get("step_cases", 0),
         "correspondence_disagreements": len(corr_bad),
         "oracle_failures": len(oracle_bad),
+        "casm_macro_spellings_checked": summary.get("macro_spellings", 0),
         "samples": samples or ["(no samples: harness did not run)"],
     })
     return ctx.finish(
@@ -108,7 +109,9 @@ def run(ctx):
         "Stone extension; premise: the defining equation of the field inverse used for product deductions). "
         "Exploration (not proof): the hand model is compared with cairo-lang-casm and cairo-vm on the same "
         "inputs (assemble/encode/op_size, decode_instruction incl. error cases, one VM step incl. deduction), "
-        "and an impl-level oracle checks that each real VM step does what the CASM syntax denotes.",
+        "and impl-level oracles check that each real VM step does what the CASM syntax denotes, that a Blake2s word "
+        "decodes to the byte_count/state/message cells it names, and that the casm! macro (inline.rs) produces the "
+        "instruction its text spells (49 spellings: every cell_ref/res!/control-flow arm).",
         TRUSTED,
         "make -C coq C16/*.vo && coqc Props/C16.v (Print Assumptions) ; harness/h16 -> coqc out/C16/cases/*.v",
     )
